@@ -169,6 +169,30 @@ func jobC14DefaultSource(c *rt.Ctx) {
 func jobC14(c *rt.Ctx) {
 	c.Require("gen/ok", "gen/fail", "equal/flip", "equal/same", "equal/foreign", "accessor")
 	jobC14DefaultSource(c)
+	// held results: keys, Seed() and Public() values of 40 GenerateKey calls kept by the caller, each then
+	// used as the caller's own buffer; every other one still reads as it must
+	c.Require("held-results")
+	if c.Take() {
+		c.Class("held-results")
+		c.Distinct("held", true)
+		var got, want [][]byte
+		for i := 0; i < 40; i++ {
+			seed := make([]byte, 32)
+			seed[0], seed[5] = byte(i), 0x14
+			pub, priv, err := GenerateKey(bytes.NewReader(seed))
+			if err != nil {
+				c.Violation("C14 held-results", "GenerateKey failed on a 32-byte reader", nil)
+				break
+			}
+			std := stded.NewKeyFromSeed(seed)
+			got = append(got, pub, priv, priv.Seed(), priv.Public().(PublicKey))
+			want = append(want, append([]byte{}, std[32:]...), append([]byte{}, std...), append([]byte{}, seed...), append([]byte{}, std[32:]...))
+		}
+		c.Step(40)
+		if j, i := heldResults(got, want); j >= 0 {
+			c.Violation("C14 held-results", fmt.Sprintf("result %d (pub, priv, Seed(), Public() per key) changed or was wrong after the caller appended to result %d", j, i), map[string]interface{}{"held": j, "appended_to": i})
+		}
+	}
 	pats := [][]int{{0}, {1}, {31, 1}, {16, 16}, {33}, {64}, {7, 0}, {-1, 5}, {-1, -1, 32}, {-1, 1}, {-1, -1, -1, -1, -1, 1}}
 	stream := make([]byte, 96)
 	for i := range stream {
